@@ -1162,6 +1162,17 @@ func ToNative(s *spec.Spec, env *Env, mv any) any {
 	return v.Interface()
 }
 
+// nilEmpties makes toNative render empty lists and maps as nil slices / nil maps of their Go type - the other
+// native form of "no elements" (and the usual one for an unset struct field). Only set through ToNativeNil.
+var nilEmpties bool
+
+// ToNativeNil is ToNative with every empty list and map rendered as a nil slice / nil map.
+func ToNativeNil(s *spec.Spec, env *Env, mv any) any {
+	nilEmpties = true
+	defer func() { nilEmpties = false }()
+	return ToNative(s, env, mv)
+}
+
 func toNative(s *spec.Spec, env *Env, mv any) reflect.Value {
 	switch s.Kind {
 	case spec.KInt, spec.KEnumI, spec.KFloat, spec.KString, spec.KEnumS, spec.KBool:
@@ -1172,6 +1183,9 @@ func toNative(s *spec.Spec, env *Env, mv any) reflect.Value {
 		return reflect.ValueOf(regexp.MustCompile(mv.(Pat).Src))
 	case spec.KList:
 		l := mv.([]any)
+		if nilEmpties && len(l) == 0 {
+			return reflect.Zero(GoType(s, env))
+		}
 		out := reflect.MakeSlice(GoType(s, env), len(l), len(l))
 		for i, e := range l {
 			setInto(out.Index(i), toNative(s.Items, env, e))
@@ -1179,6 +1193,9 @@ func toNative(s *spec.Spec, env *Env, mv any) reflect.Value {
 		return out
 	case spec.KMap:
 		m := mv.(map[any]any)
+		if nilEmpties && len(m) == 0 {
+			return reflect.Zero(GoType(s, env))
+		}
 		out := reflect.MakeMapWithSize(GoType(s, env), len(m))
 		for k, e := range m {
 			kv := toNative(s.Keys, env, k)
